@@ -16,6 +16,7 @@ type Clause struct {
 	Src   string
 	N     *SNode
 	Label string
+	Mode  string // "", "bv" or "int": the VC mode this clause belongs to ("" = the contract's own mode)
 	File  string
 	Line  int
 }
@@ -38,7 +39,40 @@ type Contract struct {
 	Wraps      bool // discarded carries are intended (arithmetic modulo 2^k)
 	Fresh      []*Clause
 	CallSites  []*CallSite
+	Nullable   map[string]bool
 	used       bool
+}
+
+// clauseMode: the VC mode a clause is written for.
+func (c *Contract) clauseMode(cl *Clause) string {
+	if cl.Mode != "" {
+		return cl.Mode
+	}
+	if c.Mode == "int" {
+		return "int"
+	}
+	return "bv"
+}
+
+// modes returns the VC modes in which the function must be verified (its own mode first).
+func (c *Contract) modes() []string {
+	own := "bv"
+	if c.Mode == "int" {
+		own = "int"
+	}
+	out := []string{own}
+	other := map[string]bool{}
+	for _, lst := range [][]*Clause{c.Requires, c.Ensures, c.PanicsIf} {
+		for _, cl := range lst {
+			if m := c.clauseMode(cl); m != own {
+				other[m] = true
+			}
+		}
+	}
+	for m := range other {
+		out = append(out, m)
+	}
+	return out
 }
 
 type CallSite struct {
@@ -49,6 +83,7 @@ type CallSite struct {
 }
 
 type PureFn struct {
+	Opaque bool
 	Name   string
 	Params []string
 	PTypes []string
@@ -65,9 +100,9 @@ type Lemma struct {
 }
 
 var clauseKW = map[string]bool{"func": true, "pure": true, "requires": true, "ensures": true, "assigns": true,
-	"panics-if": true, "loop": true, "callsite": true, "assumed": true, "mode": true, "lemma": true, "noauto": true, "wraps": true, "uf": true, "axiom": true}
+	"panics-if": true, "loop": true, "callsite": true, "assumed": true, "mode": true, "lemma": true, "noauto": true, "wraps": true, "nullable": true, "uf": true, "axiom": true}
 
-var labelRe = regexp.MustCompile(`^(requires|ensures|panics-if|callsite)\[([A-Za-z0-9_.-]+)\]`)
+var labelRe = regexp.MustCompile(`^(requires|ensures|panics-if|callsite|pure)\[([A-Za-z0-9_.:-]+)\]`)
 
 type rawClause struct {
 	kw, label, text string
@@ -134,7 +169,15 @@ func (e *Engine) loadContractFile(path string, pkg *ssa.Package) error {
 		if err != nil {
 			return nil, fmt.Errorf("%s:%d: %v", path, rc.line, err)
 		}
-		return &Clause{Src: rc.text, N: n, Label: rc.label, File: path, Line: rc.line}, nil
+		cl := &Clause{Src: rc.text, N: n, Label: rc.label, File: path, Line: rc.line}
+		if strings.HasPrefix(cl.Label, "bv:") {
+			cl.Mode, cl.Label = "bv", cl.Label[3:]
+		} else if strings.HasPrefix(cl.Label, "int:") {
+			cl.Mode, cl.Label = "int", cl.Label[4:]
+		} else if cl.Label == "bv" || cl.Label == "int" {
+			cl.Mode, cl.Label = cl.Label, ""
+		}
+		return cl, nil
 	}
 	for _, rc := range raws {
 		switch rc.kw {
@@ -154,7 +197,7 @@ func (e *Engine) loadContractFile(path string, pkg *ssa.Package) error {
 			if m == nil {
 				return fmt.Errorf("%s:%d: bad pure definition", path, rc.line)
 			}
-			pf := &PureFn{Name: m[1], Pkg: pkg, File: path}
+			pf := &PureFn{Name: m[1], Pkg: pkg, File: path, Opaque: rc.label == "opaque"}
 			for _, p := range strings.Split(m[2], ",") {
 				p = strings.TrimSpace(p)
 				if p == "" {
@@ -274,6 +317,13 @@ func (e *Engine) loadContractFile(path string, pkg *ssa.Package) error {
 				cur.NoAuto = true
 			case "wraps":
 				cur.Wraps = true
+			case "nullable":
+				if cur.Nullable == nil {
+					cur.Nullable = map[string]bool{}
+				}
+				for _, n := range strings.FieldsFunc(rc.text, func(r rune) bool { return r == ',' || r == ' ' }) {
+					cur.Nullable[n] = true
+				}
 			}
 		}
 	}
